@@ -316,9 +316,18 @@ def check(pid, tier):
     try:
         ensure_tools()
         built = {}
-        # units that share a package directory must be prepared one after the other
+        # units that share a package directory (or a module that gets instrumented) must be
+        # prepared one after the other; units in different modules build in parallel
+        groups = {}
         for u in units:
-            built[u["name"]] = build_unit(pid, u, sdir)
+            groups.setdefault(u.get("module", "."), []).append(u)
+
+        def build_group(us):
+            return [(u["name"], build_unit(pid, u, sdir)) for u in us]
+        with cf.ThreadPoolExecutor(max_workers=4) as ex:
+            for res in ex.map(build_group, list(groups.values())):
+                for name, b in res:
+                    built[name] = b
         t_build = time.time() - t0
         budget = float(os.environ.get("VERIF_BUDGET_S", spec.get("budget_s", {}).get(tier, 150 if tier == "quick" else 1500)))
         tasks = []
